@@ -342,7 +342,58 @@ func ruleL15(p *Prog, r *Report) {
 			r.Ok(R, cons, pos, "the dedup key is a function of the encoded type information and of every field-name list handed in")
 		})
 	}
-	r.Floor(R, "extra-data dedup lookups", 2, n)
+	// the key must be an injective encoding of the field names: they are client strings of any content, joined with a
+	// separator, so each one has to be delimited by its length (otherwise {"a,b","c"} and {"a","b,c"} share an entry)
+	keyFuncs := map[*ssa.Function]bool{}
+	if mk := p.PkgFunc("makeCompactMapTypeID"); mk != nil {
+		for g := range p.ReachableFrom([]*ssa.Function{mk}, nil) {
+			keyFuncs[g] = true
+		}
+	}
+	hasLenOf := func(g *ssa.Function, v ssa.Value) bool {
+		found := false
+		eachInstr(g, func(in ssa.Instruction) {
+			if cc, ok := isBuiltinCall(in, "len"); ok && len(cc.Args) == 1 && sameValue(cc.Args[0], v) {
+				found = true
+			}
+		})
+		return found
+	}
+	for _, g := range sortedFuncs(p, keyFuncs) {
+		ord := 0
+		eachInstr(g, func(in ssa.Instruction) {
+			c, ok := in.(*ssa.Call)
+			if !ok || !c.Call.IsInvoke() || c.Call.Method.Name() != "ID" || typeName(c.Call.Value.Type()) != "ComparableStorable" {
+				return
+			}
+			n++
+			ord++
+			cons := "dedup-key-delimited:" + p.Name(g)
+			if ord > 1 {
+				cons += "#" + string(rune('0'+ord))
+			}
+			good := hasLenOf(g, c)
+			if !good {
+				for _, u := range effectiveUses(c) {
+					cc, ok := u.(ssa.CallInstruction)
+					if !ok {
+						continue
+					}
+					h := staticCallee(cc)
+					if h == nil || h.Pkg != p.RootSSA {
+						continue
+					}
+					for i, a := range cc.Common().Args {
+						if sameValue(a, c) && i < len(h.Params) && hasLenOf(h, h.Params[i]) {
+							good = true
+						}
+					}
+				}
+			}
+			r.Decide(good, R, cons, p.InstrPos(in), "the field name enters the dedup key together with its length", "a field name (a client string of any content) is concatenated into the dedup key without its length: names containing the separator make different field sets share one extra-data entry, and the slab can no longer be encoded")
+		})
+	}
+	r.Floor(R, "extra-data dedup lookups and key components", 4, n)
 }
 
 func isRefLike(t types.Type) bool {
